@@ -648,6 +648,14 @@ func c01Scenarios(thorough bool) []*engine.SScenario {
 		linScenario(pre, [][]string{{"write:A:e1f1:L1lc:limit:ack:2"}, {"read:B:e1f1:L1lc", "write:B:e1f1:L1lc:limit:ack:1"}}, nil),
 		linScenario(pre, [][]string{{"sub:A:e2f1:L2lc:lc:d", "read:A:e1f1:L2lc"}, {"bind:B:e1f1:L2lc:lc:d", "write:B:e1f1:L2lc:limit:ack:2"}}, nil),
 	}
+	// the reply to a read carries the function's current data also while the application changes it: a read of the
+	// detailed discovery data that overlaps the removal or addition of a local entity is answered with the data before
+	// or after the change (scenarios shared with C07)
+	for _, sc := range c07Scenarios() {
+		if strings.HasPrefix(sc.Name, "discovery read | ") {
+			scs = append(scs, sc)
+		}
+	}
 	if thorough {
 		scs = append(scs,
 			linScenario(pre, [][]string{{"read:A:e1f1:L1lc", "unbind:A:e1f1:L1lc:d"}, {"read:B:e1f1:L1lc"}, {"set:L1lc:2"}}, nil),
